@@ -45,6 +45,16 @@ def suite():
 res = {"name": name, "property": prop}
 meta = json.load(open(os.path.join(d, "meta.json")))
 demo = meta.get("demo", "")
+# the demo field is free text: extract "cp out/<name>/<file> <dest>", "-run <Test>", "-tags <tags>" and rebuild the command
+mcp = re.search(r"cp\s+(?:\S*/)?out/%s/(\S+)\s+(\S+_test\.go)" % re.escape(name), demo)
+mrun = re.search(r"-run\s+'?\"?([\w^$|.]+)", demo)
+mtags = re.search(r"-tags[ =](\S+)", demo)
+if mcp and mrun:
+    dest = mcp.group(2)
+    dest = dest[len(wt) + 1:] if dest.startswith(wt + "/") else dest
+    demo = "cp out/%s/%s %s && go test %s -vet=off -count=1 -run '%s' ./%s; rc=$?; rm -f %s; exit $rc" % (
+        name, mcp.group(1), dest, ("-tags " + mtags.group(1)) if mtags else "", mrun.group(1), os.path.dirname(dest), dest)
+res["demo_cmd"] = demo
 clean()
 rc, out = sh("git apply out/%s/patch.diff" % name)
 res["applies"] = rc == 0
@@ -68,7 +78,7 @@ clean()
 # the checks against the patched worktree
 sh("git apply out/%s/patch.diff" % name)
 res["checks"] = {}
-for p in [prop] + extra:
+for p in ([prop] + extra if os.environ.get("CONFIRM_NO_CHECK") != "1" else []):
     e2 = dict(env, VERIF_REPO=wt, VERIF_NO_EVIDENCE="1")
     rc, out = sh("timeout 2400 bin/check %s --tier quick" % p, cwd=ROOT, e=e2, timeout=2500)
     vio = [l for l in out.splitlines() if l.startswith("VIOLATION")]
